@@ -489,3 +489,128 @@ def field_writes(body, adt_suffix=None):
             if isinstance(last, dict) and "f" in last and last.get("name") == f[1]:
                 out.append((b, i, f[0], f[1], st["rv"]))
     return out
+
+
+def receiver_chain(body, op, depth=0):
+    """Follow a method-call receiver back to the ADT field it is derived from, through borrows, moves and *any*
+    call's first argument (iterator adaptor chains). Returns ((adt, field), [callee names innermost-last]) or None."""
+    p = op_place(op)
+    if p is None or depth > 16:
+        return None
+    f = field_of(p)
+    if f:
+        return f, []
+    for d in body.defs.get(p["l"], []):
+        if d[0] == "stmt":
+            rv = d[3]
+            q = rv.get("ref") or rv.get("rawptr")
+            if q is not None:
+                f = field_of(q)
+                if f:
+                    return f, []
+                r = receiver_chain(body, {"copy": q}, depth + 1)
+                if r:
+                    return r
+            elif "use" in rv:
+                r = receiver_chain(body, rv["use"], depth + 1)
+                if r:
+                    return r
+            elif "cast" in rv:
+                r = receiver_chain(body, rv["cast"]["op"], depth + 1)
+                if r:
+                    return r
+        elif d[0] == "call":
+            t = d[2]
+            fr = op_fn(t["func"])
+            if fr is not None and t["args"]:
+                r = receiver_chain(body, t["args"][0], depth + 1)
+                if r:
+                    return r[0], r[1] + [fn_name(fr)]
+    return None
+
+
+def field_method_calls(body, adt_suffix, field):
+    """[(block, term, callee name, chain)] of calls whose receiver is derived from <adt>.<field>"""
+    out = []
+    for b, t, fr in body.iter_calls():
+        if fr is None or not t["args"]:
+            continue
+        r = receiver_chain(body, t["args"][0])
+        if not r:
+            continue
+        (adt, name), chain = r
+        if name == field and adt and (adt == adt_suffix or adt.endswith("::" + adt_suffix)):
+            out.append((b, t, fn_name(fr), chain))
+    return out
+
+
+def bool_source(body, local, neg=False, depth=0):
+    """trace a bool local back to the call that produced it, through copies and `Not`: (call_block, negated) or None"""
+    if depth > 8:
+        return None
+    ds = [d for d in body.defs.get(local, []) if d[0] in ("stmt", "call")]
+    if len(ds) != 1:
+        return None
+    d = ds[0]
+    if d[0] == "call":
+        return d[1], neg
+    rv = d[3]
+    if "un" in rv and rv["un"]["op"] == "Not":
+        p = op_place(rv["un"]["x"])
+        if p and not p["p"]:
+            return bool_source(body, p["l"], not neg, depth + 1)
+    if "use" in rv:
+        p = op_place(rv["use"])
+        if p and not p["p"]:
+            return bool_source(body, p["l"], neg, depth + 1)
+    return None
+
+
+def bool_arms(body, call_block):
+    """[(switch_block, true_target, false_target)] for every switch on the bool result of the call in call_block"""
+    out = []
+    for b in sorted(body.reachable):
+        t = body.blocks[b]["term"]
+        if t["k"] != "switch":
+            continue
+        p = op_place(t["op"])
+        if p is None or p["p"]:
+            continue
+        src = bool_source(body, p["l"])
+        if not src or src[0] != call_block:
+            continue
+        tg = {v: bb for v, bb in t["targets"]}
+        if 0 in tg:
+            false_t, true_t = tg[0], t["otherwise"]
+        elif 1 in tg:
+            true_t, false_t = tg[1], t["otherwise"]
+        else:
+            continue
+        if src[1]:
+            true_t, false_t = false_t, true_t
+        out.append((b, true_t, false_t))
+    return out
+
+
+def dominated_by_any(body, b, heads):
+    return any(body.dominates(h, b) for h in heads)
+
+
+def impl_self_name(body):
+    return re.sub(r"<.*$", "", body.raw.get("impl_self", "") or "").split("::")[-1]
+
+
+def impl_self_path(body):
+    return re.sub(r"<.*$", "", body.raw.get("impl_self", "") or "")
+
+
+def local_call_bodies(prog, body, blocks=None):
+    """[(block, term, callee body)] for calls that resolve to a body of this crate"""
+    out = []
+    for b, t, fr in body.iter_calls(blocks):
+        if fr is None:
+            continue
+        cb = prog.resolve_local(fr)
+        if cb is not None:
+            out.append((b, t, cb))
+    return out
